@@ -1703,6 +1703,7 @@ func main() {
 		res.Count("connections_"+p.workload, count[p.workload])
 	}
 	if replayIdx < 0 {
+		truncationSweep(res)
 		res.Floor("lines_compared", st.m["lines_compared"], mon.N(40000, 2000000))
 		res.Floor("malformed_frames_fed", st.m["malformed_frames_fed"], nMal)
 		res.Floor("connections", st.m["connections"], nMain+nBytes+nPy2)
